@@ -775,6 +775,16 @@ func (x *Exec) checkPost(st *State, fr *Frame, res Value, pos token.Pos) {
 		vars["result"] = res
 	}
 	c := x.ctxFor(st, fr, st.old, vars)
+	// proof steps: each assert is proved at this return with the locals in scope, then assumed
+	for _, cl := range x.fc.Asserts {
+		if !c.resolvable(cl.Expr) {
+			continue // a proof step about locals that do not exist at this return
+		}
+		t := x.evalBool(st, cl, c)
+		site := fmt.Sprintf("%s@%s", lineOf(cl.Line), x.pos(pos))
+		x.oblige(st, "assert", site, cl.Src, x.allProps(), t)
+		st.assume(t)
+	}
 	c.names = nil
 	for _, cl := range x.fc.Ensures {
 		t := x.evalBool(st, cl, c)
